@@ -220,6 +220,12 @@ class Fold:
         key = ("field", show(n))
         if key in env:
             return env[key]
+        b = unwrap(n["base"]) if n.get("base") is not None else None
+        if b is not None and b.get("k") == "ref" and b.get("dk") in ("local",) and b.get("decl") in env:
+            from sympy.core.function import AppliedUndef
+            bv = env[b["decl"]]
+            if isinstance(bv, AppliedUndef) and not is_vec3(n.get("type") or "") and not is_mat3(n.get("type") or ""):
+                return F("." + (n.get("fname") or "?"))(bv)      # field of an object that a call returned: named after where the object came from
         return self.atom_for(n, env)
 
     def ev_cast(self, n, env):
